@@ -61,7 +61,7 @@ def dynKind? : String → Option Spec.DynKind
   | "node" => some .node | "newfn" => some .newfn | "bound" => some .bound | _ => none
 def dynField? : String → Option Spec.DynField
   | "length" => some .length | "hasproto" => some .hasproto | "protoattr" => some .protoattr | "ctor" => some .ctor
-  | "enumown" => some .enumown | "callerdesc" => some .callerdesc | _ => none
+  | "enumown" => some .enumown | "callerdesc" => some .callerdesc | "stackdesc" => some .stackdesc | _ => none
 
 def handleO (ws : List String) : Option String :=
   match ws with
